@@ -13,12 +13,13 @@ import ast
 import z3
 from z3 import And, Or, Not, If, Implies, Int, Ints, IntVal, BoolVal, ForAll, Exists, Const, Lambda, Select, Store
 
-from pyvc.front import select, SelectorError, OutOfSubset
-from pyvc.symex import Exec, State
+from pyvc.front import select, SelectorError, OutOfSubset, walk_no_defs
+from pyvc.symex import Exec, State, LoopSpec
 from pyvc.theories import TypePreds
 from pyvc.th_lists import Lists, Val, VAL, fresh_list, V, as_list_sv
 from pyvc.th_tables import Tables, Key, KEY, fresh_table, wf, no_columns, nrows, column, same_table, key_of
 from pyvc.sv import SV, I, B, S, T, NONE, fresh_name, fresh_int
+from pyvc.th_tables2 import (Rows, CNT, cnt_def, count_lemmas, fresh_rowlist, rows_of, mask_list, rowmap, fresh_colmap, as_table, CLS)
 
 PROP = 'C01'
 REPLAY_MODULE = 'rac.C01_ded'
@@ -72,6 +73,119 @@ class Dictable:
         if vnew.kind == 'val':
             return SV('rowmap', None, dom=t.dom, vals=Lambda([kv], vnew.t))
         raise OutOfSubset('dict comprehension with %s values' % vnew.kind)
+
+
+def _inline(m):
+    inline = {'_value': (m, m.func('_value'))}
+    for f in ('__len__', '__setitem__', 'get', '__getitem__', '__iter__', '__init__'):
+        inline['dictable.' + f] = (m, m.func('dictable.' + f))
+    return inline
+
+
+# ====================================================================================================== __iter__
+def iter_obligations(ctx, m):
+    """dictable.__iter__ (a generator: the loop appends every yielded value to a ghost list): over a rectangular table it yields one Dict per row, in
+    order, with the table's columns as keys and the row's cells as values.  This is the contract `Rows.iter_rows` hands to callers."""
+    fdef = m.func('dictable.__iter__')
+    loop = select(fdef, 'For#0')
+    n = Int('N')
+    t = fresh_table('self')
+    j = Int('j!it')
+    c = Const('c!it', Key)
+
+    def listed(y, k):
+        return [('one_row_per_position', y.t == k),
+                ('rows_have_the_columns_as_keys', ForAll([j], Implies(And(0 <= j, j < k), Select(y.doms, j) == t.dom))),
+                ('row_j_holds_the_jth_cell_of_every_column', ForAll([j, c], Implies(And(0 <= j, j < k, t.dom[c]), Select(Select(y.vals, j), c) == t.carr[c][j])))]
+
+    def inv(st, entry):
+        return listed(st.ghost['yielded'], st.ghost['__iter__.For0.k'])
+
+    def ghost_havoc(ex, st):
+        st.ghost['yielded'] = fresh_rowlist('yielded')
+
+    spec = LoopSpec('__iter__.For0', inv, ghost_havoc=ghost_havoc)
+    ex = Exec(m, [Rows(known=[(t, n)], iter_contract=False), Dictable(m), Tables(), Lists(), TypePreds()], loops={id(loop): spec}, inline=_inline(m), name='__iter__')
+    st = State(env={'self': t})
+    st.pc.append(wf(t, n))
+    st.ghost['yielded'] = fresh_rowlist('nil', 0)
+    outs = ex.run_function(st, 'dictable.__iter__', [t], {})
+    ctx.absorb(ex)
+    ctx.record_function(m, 'dictable.__iter__', fdef, ex.stmts_executed)
+    nret = 0
+    for out in outs:
+        hy = ex.facts + out.st.pc
+        if out.kind != 'return':
+            ctx.post('__iter__.never_raises_on_a_rectangular_table', hy, BoolVal(False), kind='safety')
+            continue
+        nret += 1
+        for cname, goal in listed(out.st.ghost['yielded'], nrows(t, n)):
+            ctx.post('__iter__.yields.' + cname, hy, goal)
+    if nret == 0:
+        raise OutOfSubset('__iter__ has no normal exit')
+    ctx.cover('__iter__.pre', [wf(t, n), n == 2, t.dom[key_of('a')], t.dom[key_of('b')]])
+
+
+# ====================================================================================================== __getitem__(list of booleans)
+def mask_obligations(ctx, m):
+    """dictable.__getitem__ for a list of booleans with one entry per row (the shape inc / exc hand over): the result keeps all columns, is rectangular
+    with count_true(mask, len) rows, and the row of every true entry i sits at position count_true(mask, i) - with the laws of count_true
+    (count_lemmas: ranks of true entries strictly increase, every position below the count is the rank of a true entry) that is: exactly the rows
+    whose entry is true, in order.  Callees by contract: __iter__ (proved above), zipper (C19), the constructor from records / ([], columns)."""
+    fdef = m.func('dictable.__getitem__')
+    comps = [c_ for c_ in walk_no_defs(fdef) if isinstance(c_, ast.ListComp) and len(c_.generators) == 1 and c_.generators[0].ifs]
+    if len(comps) != 1:
+        raise SelectorError('__getitem__: expected one filtered comprehension (rows kept by a boolean mask)')
+    comp = comps[0]
+    n = Int('N')
+    t = fresh_table('self')
+    item = mask_list('item')
+    M, marr = item.t, item.arrs[0]
+    nm = '__getitem__.mask.rows'
+    i, p = Ints('i!mk p!mk')
+    c = Const('c!mk', Key)
+    holder = {}
+
+    def inv(st, entry):
+        k, res = st.ghost[nm + '.k'], st.ghost[nm + '.res']
+        holder['ex'].fact(cnt_def(marr, k))
+        return [('length_is_the_number_of_true_entries_passed', And(res.t == CNT(marr, k), 0 <= res.t, res.t <= k)),
+                ('true_entries_passed_rank_below_the_length', ForAll([i], Implies(And(0 <= i, i < k, marr[i] != 0), And(0 <= CNT(marr, i), CNT(marr, i) < res.t)))),
+                ('every_kept_record_has_all_columns', ForAll([p], Implies(And(0 <= p, p < res.t), Select(res.doms, p) == t.dom))),
+                ('row_of_a_true_entry_sits_at_its_rank', ForAll([i, c], Implies(And(0 <= i, i < k, marr[i] != 0, t.dom[c]),
+                                                                                 Select(Select(res.vals, CNT(marr, i)), c) == t.carr[c][i])))]
+
+    spec = LoopSpec(nm, inv)
+    rows = Rows(known=[(t, n)])
+    ex = Exec(m, [rows, Dictable(m), Tables(), Lists(), TypePreds(extra={'is_arr': ()})], loops={id(comp): spec}, inline=_inline(m), name='__getitem__.mask')
+    holder['ex'] = ex
+    st = State(env={'self': t})
+    pre = [wf(t, n), M == nrows(t, n), M >= 1]
+    st.pc += pre
+    outs = ex.run_function(st, 'dictable.__getitem__', [t, item], {})
+    ctx.absorb(ex)
+    ctx.record_function(m, 'dictable.__getitem__', fdef, ex.stmts_executed,
+                        excluded=['numpy array, dict_keys / dict_values / range items (converted to lists), callable items: bounded only'])
+    nret = 0
+    for out in outs:
+        hy = ex.facts + out.st.pc
+        if out.kind != 'return':
+            ctx.post('__getitem__.mask.never_raises_for_one_entry_per_row.%s' % out.val, hy, BoolVal(False), kind='safety')
+            continue
+        nret += 1
+        o = out.val
+        if o.kind != 'table':
+            raise OutOfSubset('mask selection does not return a table')
+        total = CNT(marr, M)
+        ctx.post('__getitem__.mask.keeps_all_columns', hy, ForAll([c], o.dom[c] == t.dom[c]))
+        ctx.post('__getitem__.mask.rectangular_with_one_row_per_true_entry', hy, wf(o, total))
+        ctx.post('__getitem__.mask.row_of_a_true_entry_is_kept_at_its_rank', hy,
+                 ForAll([i, c], Implies(And(0 <= i, i < M, marr[i] != 0, t.dom[c]), And(0 <= CNT(marr, i), CNT(marr, i) < total, o.carr[c][CNT(marr, i)] == t.carr[c][i]))))
+    if nret == 0:
+        raise OutOfSubset('mask selection has no returning path')
+    count_lemmas(ctx, '__getitem__.mask')
+    ctx.cover('__getitem__.mask.pre', pre + [n == 3, t.dom[key_of('a')], marr[0] == 1, marr[1] == 0, marr[2] == 1])
+    ctx.cover('__getitem__.mask.nothing_kept_reachable', pre + [n == 2, t.dom[key_of('a')], marr[0] == 0, marr[1] == 0])
 
 
 def build(ctx):
@@ -192,6 +306,8 @@ def build(ctx):
         if nret == 0:
             raise OutOfSubset('integer row access has no returning path')
     ctx.guarded('__getitem__.int', row_section)
+    ctx.guarded('__iter__', lambda: iter_obligations(ctx, m))
+    ctx.guarded('__getitem__.mask', lambda: mask_obligations(ctx, m))
     ctx.trust('rectangularity of tables produced by operations other than __setitem__ (constructor forms, masks, concat, ...) is checked by the bounded stand-in only')
 
     # ------------------------------------------------------------------ frame: operations that return a new object never alter their operands
